@@ -24,12 +24,25 @@ VIOL_CAP_PER_TASK = 40
 REPORT_CAP = 12
 
 
-class CaseTimeout(Exception):
+class CaseTimeout(BaseException):       # not an Exception: the check modules' `except Exception` must not swallow it
+    pass
+
+
+class WallTimeout(BaseException):
     pass
 
 
 def _alarm(_sig, _frm):
     raise CaseTimeout()
+
+
+def _wall(_sig, _frm):
+    raise WallTimeout()
+
+
+def _disarm():
+    signal.setitimer(signal.ITIMER_PROF, 0)
+    signal.alarm(0)
 
 
 class Acc:
@@ -100,19 +113,28 @@ def _work(arg):
     pid, idx, task, tier, seed, task_budget = arg
     mod = load_prop(pid)
     acc = Acc(seed)
-    signal.signal(signal.SIGALRM, _alarm)
-    signal.alarm(task_budget)
+    # The task budget is CPU time of this worker (ITIMER_PROF): a loaded machine must not turn into an alarm.  A wall-clock
+    # limit (4x) only caps the task - it is reported as incomplete coverage, never as a violation.
+    signal.signal(signal.SIGPROF, _alarm)
+    signal.setitimer(signal.ITIMER_PROF, task_budget)
+    signal.signal(signal.SIGALRM, _wall)
+    signal.alarm(task_budget * 4)
     try:
         mod.run_task(task, acc)
     except CaseTimeout:
-        acc.violation('timeout', acc.current, 'no result within %d s while processing this case '
+        _disarm()
+        acc.violation('timeout', acc.current, 'no result within %d s of CPU time while processing this case '
                       '(non-termination or pathological slowness)' % task_budget, sig='timeout')
         acc.caps.append('task %d stopped by watchdog' % idx)
+    except WallTimeout:
+        _disarm()
+        acc.caps.append('task %d stopped at its wall-clock limit of %d s with CPU budget left (machine load); its remaining '
+                        'cases were not explored' % (idx, task_budget * 4))
     except env.HarnessError as e:
-        signal.alarm(0)
+        _disarm()
         return idx, {'harness_error': 'task %r: %s' % (task, e)}
     except Exception as e:  # noqa
-        signal.alarm(0)
+        _disarm()
         # an exception raised INSIDE the library under test while the harness was reading or driving a value is a
         # finding about the library (with the case being processed), not a harness failure
         tb = traceback.extract_tb(e.__traceback__)
@@ -124,7 +146,7 @@ def _work(arg):
             return idx, acc.export()
         return idx, {'harness_error': 'task %r crashed:\n%s' % (task, traceback.format_exc())}
     finally:
-        signal.alarm(0)
+        _disarm()
     for v in acc.violations:
         v['task'] = idx
     return idx, acc.export()
